@@ -151,11 +151,9 @@ func (i *interpreter) branch(cond *Term, fr *frame) bool {
 	} else {
 		rf = i.check(ts.Not(cond))
 	}
-	if rt == rUnknown {
+	if rt == rUnknown || rf == rUnknown {
 		c.unknown++
-	}
-	if rf == rUnknown {
-		c.unknown++
+		i.results.addInconclusive(i.cfg.Name, "solver unknown on a branch in "+originOf(fr)+": "+cond.render(4))
 	}
 	tOK, fOK := rt != rUnsat, rf != rUnsat
 	switch {
